@@ -11,7 +11,7 @@
 use crate::evidence::{Report, Tier};
 use crate::gen::{self, Comp};
 use crate::httpd::{self, Server};
-use crate::proc::{self, p, Exit, Run};
+use crate::proc::{self, p, s, Exit, Run};
 use crate::refimpl::chunker::Cfg;
 use crate::refimpl::codec;
 use crate::scn::{self, CloneSpec, CompressSpec};
@@ -565,6 +565,149 @@ fn loop_device_too_small(rep: &Report, seed: u64) {
     scn::cleanup(&dir, false);
 }
 
+/// A refusal while the output is being written by somebody else: compress A (input on
+/// stdin, fed by the harness) has created OUTPUT and its temp file and is still chunking
+/// when compress B names the same OUTPUT without --force-create. B must be refused, and the
+/// refusal must leave what it was refused on alone: A finishes with exit 0 and OUTPUT is
+/// byte-identical to the archive of a lone run of A. No sleeps decide anything: B is started
+/// when OUTPUT and the temp file exist, A gets the rest of its input after B has exited.
+fn overlapping_compress(rep: &Report, idx: usize, seed: u64) -> Option<String> {
+    use crate::refimpl::chunker::{Algo, Cfg};
+    use std::io::Write;
+    let mut rng = Rng::new(seed).fork(0x14d0 + idx as u64);
+    let dir = scn::case_dir("C14", 20_000 + idx);
+    let res = (|| -> Result<(), String> {
+        let cfg = match idx % 3 {
+            0 => Cfg::fixed(rng.urange(4_000, 40_000)),
+            1 => Cfg { algo: Algo::RollSum, window: 64, min: 4096, max: 65_536, bits: 13 },
+            _ => Cfg { algo: Algo::BuzHash, window: 16, min: 4096, max: 65_536, bits: 13 },
+        };
+        let comp = *rng.pick(&[gen::Comp::None, gen::Comp::Brotli(1), gen::Comp::Zstd(1)]);
+        // more than the chunker's 1 MiB refill, so that A has really started to chunk and
+        // to write its temp file when half of the input has been delivered
+        let len_a = rng.urange(2_600_000, 3_400_000);
+        let src_a = gen::gen_source(&mut rng, gen::SrcClass::Random, len_a);
+        let len_b = rng.urange(10_000, 400_000);
+        let src_b = gen::gen_source(&mut rng, gen::SrcClass::LowEntropy, len_b);
+        let spec = scn::CompressSpec::new(cfg, comp, 64);
+        // lone run of A = reference
+        let (run, ref_path) = scn::compress_run(&dir, "ref", &src_a, &spec);
+        let o = proc::run(&run);
+        rep.eval();
+        if !o.exit.ok() {
+            rep.inconclusive("overlapping-compress reference run did not succeed");
+            return Ok(());
+        }
+        let reference = std::fs::read(&ref_path).map_err(|e| e.to_string())?;
+        let out = dir.join("out.cba");
+        let temp = scn::temp_path_of(&out);
+        let mut args = vec![s("compress")];
+        args.extend(gen::cli_chunker_args(&spec.cfg));
+        args.extend(spec.comp.cli_args());
+        args.push(s("--hash-length"));
+        args.push(s("64"));
+        args.push(p(&out));
+        let mut a = std::process::Command::new(proc::bita_bin(proc::Bin::Dev))
+            .args(&args)
+            .env_clear()
+            .env("PATH", "/usr/bin:/bin")
+            .env("RUST_BACKTRACE", "0")
+            .env("HOME", &dir)
+            .current_dir(&dir)
+            .stdin(std::process::Stdio::piped())
+            .stdout(std::process::Stdio::null())
+            .stderr(std::process::Stdio::piped())
+            .spawn()
+            .map_err(|e| format!("harness: spawn: {}", e))?;
+        let mut stdin = a.stdin.take().unwrap();
+        let half = len_a * 2 / 3;
+        let finish = |mut a: std::process::Child| {
+            let _ = a.kill();
+            let _ = a.wait();
+        };
+        if stdin.write_all(&src_a[..half]).is_err() {
+            finish(a);
+            rep.inconclusive("compress A did not take its input");
+            return Ok(());
+        }
+        let _ = stdin.flush();
+        // wait (bounded) until A has created OUTPUT and written something to its temp file
+        let t0 = std::time::Instant::now();
+        loop {
+            let ready = out.exists() && std::fs::metadata(&temp).map(|m| m.len() > 0).unwrap_or(false);
+            if ready {
+                break;
+            }
+            if t0.elapsed().as_secs() > 20 || a.try_wait().ok().flatten().is_some() {
+                finish(a);
+                rep.inconclusive("compress A did not reach its chunking phase");
+                return Ok(());
+            }
+            std::thread::sleep(std::time::Duration::from_millis(5));
+        }
+        let out_before = std::fs::read(&out).unwrap_or_default();
+        // B: same OUTPUT, no --force-create
+        let bsrc = dir.join("b.src");
+        std::fs::write(&bsrc, &src_b).unwrap();
+        let mut bargs = vec![s("compress"), s("-i"), p(&bsrc)];
+        bargs.extend(gen::cli_chunker_args(&spec.cfg));
+        bargs.extend(spec.comp.cli_args());
+        bargs.push(p(&out));
+        let mut brun = Run::new(&dir, "b", bargs);
+        brun.use_shim = false;
+        let ob = proc::run(&brun);
+        rep.eval();
+        let out_after = std::fs::read(&out).unwrap_or_default();
+        let temp_there = temp.exists();
+        // let A finish
+        let rest = stdin.write_all(&src_a[half..]);
+        drop(stdin);
+        let t1 = std::time::Instant::now();
+        let status = loop {
+            match a.try_wait() {
+                Ok(Some(st)) => break Some(st),
+                Ok(None) if t1.elapsed().as_secs() < 90 => std::thread::sleep(std::time::Duration::from_millis(10)),
+                _ => break None,
+            }
+        };
+        let Some(status) = status else {
+            finish(a);
+            rep.inconclusive("watchdog (compress A)");
+            return Ok(());
+        };
+        let mut aerr = String::new();
+        if let Some(mut e) = a.stderr.take() {
+            use std::io::Read;
+            let _ = e.read_to_string(&mut aerr);
+        }
+        if ob.exit == Exit::Timeout {
+            rep.inconclusive("watchdog (compress B)");
+            return Ok(());
+        }
+        if ob.exit.ok() {
+            return Err("a compress onto an OUTPUT that another compress is writing, without --force-create, was not refused".into());
+        }
+        rep.count("compress.refusals_while_another_compress_is_running", 1);
+        if out_after.len() < out_before.len() || out_after[..out_before.len()] != out_before[..] {
+            return Err(format!("the refused compress changed OUTPUT ({} -> {} bytes) while another compress was writing it", out_before.len(), out_after.len()));
+        }
+        if !temp_there {
+            return Err("the refused compress removed the temp file of the compress that is still running".into());
+        }
+        if rest.is_err() || !status.success() {
+            return Err(format!("after a second compress was refused on the same OUTPUT, the running compress failed ({:?}): {}", status, aerr.lines().last().unwrap_or("")));
+        }
+        let got = std::fs::read(&out).map_err(|e| e.to_string())?;
+        if got != reference {
+            return Err(format!("after a second compress was refused on the same OUTPUT, the archive of the running compress differs from a lone run ({} vs {} bytes, first difference {:?})", got.len(), reference.len(), crate::util::first_diff(&got, &reference)));
+        }
+        rep.nontrivial(format!("overlap:{}#{}", spec.describe(), idx));
+        Ok(())
+    })();
+    scn::cleanup(&dir, res.is_err());
+    res.err()
+}
+
 pub fn run(tier: Tier, seed: u64) -> i32 {
     let rep = Report::new("C14", "exploration", tier, seed);
     let cells = all_cells();
@@ -586,13 +729,22 @@ pub fn run(tier: Tier, seed: u64) -> i32 {
         }
     }
     compress_cells(&rep, seed);
+    {
+        let n = tier.pick(6, 48);
+        let out = par_map(n, 6, |i| (i, overlapping_compress(&rep, i, seed)));
+        for (i, r) in out {
+            if let Some(why) = r {
+                rep.violation("c14/compress/refused while another compress is running", json!({"why": why}), json!({"engine": "overlap", "idx": i, "seed": seed}));
+            }
+        }
+    }
     loop_device_too_small(&rep, seed);
     if rep.counter("refusals_observed") == 0 || rep.counter("successes_observed") == 0 || rep.counter("compress.refusals_observed") == 0 {
         rep.broken("matrix did not produce both refusals and successes".into());
     }
     rep.note(format!("clone matrix: {} cells x {} repetition(s) with different contents; compress matrix: 16 cells", cells.len(), reps));
     rep.finish(
-        "full matrix of {output absent, regular file with random / source-equal / longer / empty content, block device (hook) smaller / equal / larger than the source} x {no flag, --force-create, --seed-output, both} x {valid archive, flipped magic, flipped header checksum bit, header truncated, truncated to the pre-header, --verify-header mismatch, --verify-header match} x {local, HTTP} for clone, and {absent, present} x {none, --force-create} x {file, stdin input} for compress, plus a real loop device smaller than the source when available; refusal cells: exit != 0, output content/length/existence unchanged, directory listing unchanged, no write reached the output (shim); other cells must succeed with the right output; non-trivial = distinct cells judged",
+        "full matrix of {output absent, regular file with random / source-equal / longer / empty content, block device (hook) smaller / equal / larger than the source} x {no flag, --force-create, --seed-output, both} x {valid archive, flipped magic, flipped header checksum bit, header truncated, truncated to the pre-header, --verify-header mismatch, --verify-header match} x {local, HTTP} for clone, and {absent, present} x {none, --force-create} x {file, stdin input} for compress, a compress refused while another compress is still writing the same OUTPUT (the running one must finish with the archive of a lone run), plus a real loop device smaller than the source when available; refusal cells: exit != 0, output content/length/existence unchanged, directory listing unchanged, no write reached the output (shim); other cells must succeed with the right output; non-trivial = distinct cells judged",
         &["a compress whose *input* is missing leaves an empty output behind; that refusal reason is not among those the property lists (DESIGN.md, observations)"],
         json!({}),
         true,
@@ -600,6 +752,21 @@ pub fn run(tier: Tier, seed: u64) -> i32 {
 }
 
 pub fn replay(v: &Value) -> i32 {
+    if v["replay"]["engine"] == "overlap" {
+        let r = &v["replay"];
+        let rep = Report::new("C14", "exploration", Tier::Quick, r["seed"].as_u64().unwrap_or(1));
+        return match overlapping_compress(&rep, r["idx"].as_u64().unwrap_or(0) as usize, r["seed"].as_u64().unwrap_or(1)) {
+            Some(why) => {
+                println!("replay: VIOLATED: {}", why);
+                println!("VIOLATION property=C14 replay=(replayed)");
+                1
+            }
+            None => {
+                println!("replay: property held on this case");
+                0
+            }
+        };
+    }
     let r = &v["replay"];
     let seed = r["seed"].as_u64().unwrap_or(1);
     let mut rep = Report::new("C14", "exploration", Tier::Quick, seed);
